@@ -120,7 +120,12 @@ fn main() {
         let root = base.join(format!("ws{}", n % 4));
         let _ = std::fs::remove_dir_all(&root);
         std::fs::create_dir_all(&root).unwrap();
-        std::fs::write(root.join(".emmyrc.json"), "{}\n").unwrap();
+        let reindex = sc["reindex"].as_bool().unwrap_or(false);
+        std::fs::write(
+            root.join(".emmyrc.json"),
+            if reindex { "{\"workspace\": {\"enableReindex\": true}}\n" } else { "{}\n" },
+        )
+        .unwrap();
         let st0 = &hist[0]["st"];
         let mut uris: Vec<String> = st0["vfs"].as_object().unwrap().keys().cloned().collect();
         uris.sort();
@@ -145,9 +150,12 @@ fn main() {
         let out = run(async move {
             let root = root2;
             let uris = uris2;
+            let mut emmyrc = emmylua_code_analysis::Emmyrc::default();
+            emmyrc.workspace.enable_reindex = reindex;
             let mut s = Session::start(SessionOpts {
                 root: Some(root.clone()),
                 scheduled: true,
+                emmyrc: std::sync::Arc::new(emmyrc),
                 ..Default::default()
             })
             .await;
@@ -172,6 +180,7 @@ fn main() {
                             "open" => did_open(&uri, &text_of(t), 1),
                             "change" => did_change(&uri, &text_of(t), 2),
                             "close" => did_close(&uri),
+                            "save" => did_save(&uri),
                             "watch" => did_change_watched(&[(uri.clone(), 2)]),
                             "wdel" => did_change_watched(&[(uri.clone(), 3)]),
                             "cfg" => did_change_watched(&[(uri_of(&root.join(".emmyrc.json")), 2)]),
